@@ -69,7 +69,24 @@ def axis(rng, n, lo, hi, zero_first=False, min_step=None):
     return s
 
 
+# A well-conditioned table (found by search, about 1 in 28 000 of the generated class) for which Qhull places the
+# clamped corner (io_max, vi_min) numerically OUTSIDE the triangulation: the lookup there only works through the
+# "move the clamped point marginally inwards" fallback of the code (fix de7b913, finding F18).
+NUDGE_WITNESS = {"vi": [5.2061, 4.4186, 4.3089, 3.9523], "io": [0.0, 1.1768, 1.9674, 2.5327, 2.5407, 4.9759, 5.2218, 6.1292],
+                 "vdrop": [[0.4868, 0.7492, 0.7542, 0.4961, 0.3873, 0.5751, 0.5485, 0.3209],
+                           [0.277, 0.614, 0.06452, 0.1836, 0.6616, 0.5612, 0.6806, 0.3735],
+                           [0.2593, 0.05503, 0.5651, 0.4545, 0.5643, 0.3023, 0.2762, 0.6685],
+                           [0.05127, 0.5477, 0.1755, 0.6306, 0.4813, 0.5744, 0.4883, 0.7443]]}
+
+
 def gen(rng, i, tier):
+    if i % 40 == 9:
+        # (placed in the middle of the stream: by then the process has made many off-table lookups of other tables)
+        import copy
+
+        return {"kind": "Rectifier", "z": "vdrop", "table": copy.deepcopy(NUDGE_WITNESS), "qseed": rng.randrange(1 << 30), "const": False,
+                "nq": 12, "axis_form": "desc_vi", "numtype": "float", "one_object": i % 80 == 9, "plot_first": False,
+                "extra_queries": [[7.0, 3.0], [6.1292, 3.9523], [6.5, 3.9523], [6.1292, 2.0], [5.6755, 3.0]]}
     kind, z = TARGETS[i % len(TARGETS)] if rng.random() < 0.7 else rng.choice(TARGETS)
     one_d = rng.random() < 0.3
     nio = rng.randint(1, 8) if one_d else rng.randint(2, 8)
@@ -268,6 +285,7 @@ def run(ctx, case):
     if st != "ok":
         raise RuntimeError("well-conditioned table rejected: %s" % H.exc_sig(comp))
     qs = queries(rng, tab, case["nq"])
+    qs = [(q_[0], q_[1], "out", "out") for q_ in case.get("extra_queries", [])] + qs
     if case.get("one_object", True) and case.get("plot_first"):
         # the table is PLOTTED (System.plot_interp) before the component has ever been looked up
         import matplotlib.pyplot as plt
